@@ -48,7 +48,10 @@ ASSUMPTIONS = [
     'router thread and other threads interleave at the granularity of whole run() iterations / receivePacket / sendPacket '
     'calls (queue.Queue operations are atomic; the gate lets exactly one thread move at a time)',
     'the model describes the code with fixes/F18a.patch (sendall), F18b.patch (prefix from len(data)), F18c.patch (UART '
-    'size check before the lock) and F18d.patch (write lock around sendall) applied',
+    'size check before the lock), F18d.patch (write lock around sendall) and F18e.patch (CRTP queue exists before the router '
+    'thread starts) applied',
+    'TcpDriver sessions: the receive thread polls with a 0.1 s wall-clock timeout; the harness waits (bounded) until it has '
+    'emptied the CRTP queue after each router iteration, so in_queue contents are compared at quiescent points',
     'concurrent senders interleave at the granularity of socket send calls (socket.sendall is a loop over send and is not '
     'atomic between threads); with the write lock of F18d no atomicity of sendall is assumed',
 ]
@@ -65,8 +68,10 @@ PROVED = ('Over the model: CPXPacket encode/decode round trip for all 4x4x7x2 at
           'any interleaving of the atomic frame writes of concurrent senders re-assembles to an interleaving of their sequences; '
           'CRTP header and payload unchanged through '
           'send_packet and the receive thread (header modulo the two reserved bits CRTPPacket forces to 1); UART framing '
-          'round trip, noise skipping, oversize refusal leaving the link usable.')
-NOT_PROVED = ('UARTTransport.connect handshake; behaviour on a closed socket (recv returning b""); a UART checksum mismatch is '
+          'round trip, noise skipping, oversize refusal leaving the link usable, connect handshake, frames between arbitrary '
+          'noise, checksum behaviour; TcpDriver as a whole: connect, downlink into in_queue in order for any fragmentation, '
+          'receive_packet for any wait argument, uplink frames, close; makeTransaction under traffic of other functions.')
+NOT_PROVED = ('SerialDriver.connect device lookup (pyserial list_ports); behaviour on a closed socket (recv returning b""); a UART checksum mismatch is '
               'only printed by the code (packet still delivered) - modelled, not a preservation claim; byte-code level '
               'interleavings. Packets of a function nobody has asked for yet are dropped by the router: stated in the theorem '
               '(accepted), not a preservation claim.')
@@ -105,6 +110,15 @@ HEADER_C = HEADER + ('Definition cpx_case (takes : list Z) (s : sock) (evs : lis
                      '  let \'(c, os) := c_run takes (mk_cs s r_init true) evs in\n'
                      '  zlen (concat (cs_in c)) :: (if cs_open c then 1 else 0) :: flat (map enc_cobs os)\n'
                      '  ++ concat (map (fun f => enc_queue (cs_rt c f)) qfs).\n')
+
+HEADER_D = HEADER + ('From CF Require Import C18.Driver.\n'
+                     'Definition drv_case (takes : list Z) (s : sock) (evs : list dev) : list Z :=\n'
+                     '  let \'(d0, b0) := d_connect takes s in\n'
+                     '  let \'(d, os) := d_run takes d0 evs in\n'
+                     '  zlen (concat (cs_in (d_c d))) :: flat ((31 :: enc_resb b0) :: map enc_dobs os)\n'
+                     '  ++ (let l := concat (map (fun k => enc_crtp (Some k)) (d_inq d)) in zlen l :: l).\n')
+
+HEADER_ALL = HEADER + HEADER_U[len(HEADER):] + HEADER_C[len(HEADER):] + HEADER_D[len(HEADER):]
 
 QFS = [0, 1, 2, 3, 4, 5, 9, 14, 15, 63]
 TARGETS = [1, 2, 3, 4]
@@ -643,7 +657,7 @@ def impl_cpx_session(chunks, takes, events):
                     break
             elif e[0] == 'R':
                 try:
-                    p = c.receivePacket(_fn_member(e[1]), timeout=0)
+                    p = c.receivePacket(_fn_member(e[1]), timeout=(e[2] if len(e) > 2 else 0))
                     gets[e[1]] = gets.get(e[1], 0) + 1
                     obs.append([20, e[1]] + _enc_opt(p))
                 except queue.Empty:
@@ -739,6 +753,132 @@ def impl_cpx_session(chunks, takes, events):
             for p in items:
                 out += _enc_pkt(p)
     return out, obs, {'thread_alive_after': router.is_alive(), 'sock': sock, 'router': router, 'stuck': state['stuck']}
+
+
+# ---- TcpDriver end to end: its own connect() (router thread + receive thread), send_packet, receive_packet, close
+def _enc_crtp_pk(pk):
+    if pk is None:
+        return [0]
+    d = list(pk.data)
+    return [1, pk.header, pk.port, pk.channel, len(d)] + d
+
+
+def impl_driver_session(chunks, takes, events, uri='tcp://aideck.local:5000', early=0):
+    """events: ['P'] router iteration | ['S', port, chan, data] | ['R', w] receive_packet(w) | ['C'] close.
+    The driver builds its CPX / threads itself; only the name SocketTransport inside cflib.crtp.tcpdriver is rebound so
+    that the transport it creates is the real SocketTransport on the scripted socket behind the gate."""
+    import time
+    import cflib.crtp.tcpdriver as td
+    made = {}
+
+    def factory(host, port):
+        made['addr'] = (host, port)
+        made['gate'] = GateTransport(_transport(chunks, takes))
+        return made['gate']
+    obs = []
+    errors = []
+    state = {'stuck': False}
+    old = td.SocketTransport
+    old_rt = td._CPXReceiveThread
+
+    def rt_factory(cpx_, inq, cb):
+        # schedule point inside connect(): the router thread (started by CPX()) makes `early` iterations before the
+        # receive thread object is even created
+        for _ in range(early):
+            made['gate'].idle.wait(1.5)
+            made['gate'].idle.clear()
+            made['gate'].tokens.release()
+            made['gate'].idle.wait(1.5)
+        return old_rt(cpx_, inq, cb)
+    td.SocketTransport = factory
+    td._CPXReceiveThread = rt_factory
+    drv = td.TcpDriver()
+    try:
+        with _quiet():
+            drv.connect(uri, None, lambda msg: errors.append(msg))
+            gate = made['gate']
+            sock = gate.real._socket
+            router = drv.cpx._router
+            rth = drv._thread
+            deadline = time.time() + 1.5
+            while not (gate.idle.is_set() and 3 in router._rxQueues) and time.time() < deadline:
+                time.sleep(0.0002)
+            rxq = router._rxQueues.get(3)
+            b = sock.stream()
+            obs.append([31, 0, len(b)] + list(b))
+
+            def quiet_rx():
+                # the receive thread has taken everything queued for CRTP and is waiting in get() again
+                deadline = time.time() + 1.5
+                while time.time() < deadline:
+                    if rxq is None or not rth.is_alive() or (rxq.qsize() == 0 and len(rxq.not_empty._waiters) > 0):
+                        return True
+                    time.sleep(0.0002)
+                return False
+            if early:
+                quiet_rx()
+            for e in events:
+                sock.ti = 0
+                n0 = len(sock.sent)
+                if e[0] == 'P':
+                    if gate.closed:
+                        continue
+                    gate.idle.clear()
+                    gate.tokens.release()
+                    if not gate.idle.wait(1.5) or not quiet_rx():
+                        state['stuck'] = True
+                        obs.append([24, sock.pending()])
+                        break
+                elif e[0] == 'S':
+                    try:
+                        drv.send_packet(_crtp(0, e[1], e[2], e[3]))
+                        b = b''.join(sock.sent[n0:])
+                        obs.append([31, 0, len(b)] + list(b))
+                    except Exception as ex:  # noqa
+                        obs.append([31, 1, _exc_code(ex)])
+                elif e[0] == 'R':
+                    w = e[1]
+                    if w < 0 and drv.in_queue.qsize() == 0:
+                        obs.append([32, 0])              # receive_packet(-1) would block for ever
+                    else:
+                        box = {}
+
+                        def call(w=w):
+                            box['r'] = drv.receive_packet(0.01 if w > 0 else w)
+                        th = threading.Thread(target=call, daemon=True)     # bounded: a call that blocks is an observation
+                        th.start()
+                        th.join(1.5)
+                        if th.is_alive():
+                            obs.append([32, 97])
+                            drv.in_queue.put(None)
+                            th.join(1.5)
+                            break
+                        obs.append([32] + _enc_crtp_pk(box['r']))
+                elif e[0] == 'C':
+                    drv.close()
+                    obs.append([33])
+                    if not gate.closed:
+                        gate.closed = True
+                        gate.tokens.release()
+                        router.join(1.5)
+            alive = [router.is_alive(), rth.is_alive()]
+            rth.sp = True
+            if not gate.closed:
+                router._connected = False
+                gate.closed = True
+                gate.tokens.release()
+            router.join(1.5)
+    finally:
+        td.SocketTransport = old
+        td._CPXReceiveThread = old_rt
+    left = []
+    while not drv.in_queue.empty():
+        x = drv.in_queue.get()
+        if x is not None:
+            left += _enc_crtp_pk(x)
+    out = [sock.pending()] + coqrun.flat(obs) + [len(left)] + left
+    return out, obs, {'addr': made.get('addr'), 'alive': alive, 'errors': errors, 'stuck': state['stuck'],
+                      'router_alive_after': router.is_alive(), 'cpx_none': drv.cpx is None}
 
 
 # ---- several threads sending on one transport
@@ -845,11 +985,39 @@ class GuardLock:
         return self.held
 
 
-def _uart(data, locked=False):
+class _FakeSerialModule:
+    """stands in for pyserial inside cflib.cpx.transports (not installed here): UARTTransport's own constructor/connect run"""
+    next_port = None
+
+    @classmethod
+    def Serial(cls, device, baudrate, timeout=None):
+        assert timeout is None
+        cls.opened = (device, baudrate)
+        return cls.next_port
+
+
+def impl_uart_connect(data):
+    """the real UARTTransport constructor (connect handshake) on a scripted port; None: the port ran dry before the sync"""
     _, tr = _mods()
-    t = object.__new__(tr.UARTTransport)
-    t._serial = FakeSerial(data)
-    t._lock = GuardLock()
+    tr.serial = _FakeSerialModule
+    tr.Lock = DetLock
+    _FakeSerialModule.next_port = FakeSerial(data)
+    out = sys.stdout
+    sys.stdout = io.StringIO()
+    try:
+        return tr.UARTTransport('/dev/ttyX', 576000)
+    except EOFError:
+        return None
+    finally:
+        sys.stdout = out
+
+
+def _uart(data, locked=False):
+    """a connected real UARTTransport (its constructor has done the handshake) with `data` as the bytes to come"""
+    t = impl_uart_connect(bytes([255, 0]) + bytes(data))
+    assert t._serial.written == [bytes([255, 0])] and _FakeSerialModule.opened == ('/dev/ttyX', 576000)
+    t._serial.written = []
+    t._serial.buf, t._serial.pos = t._serial.buf[2:], 0
     if locked:
         t._lock.acquire()
     return t
@@ -1030,27 +1198,46 @@ def tie(ctx):
     nontriv = set()
     n_eval = 0
     samples = []
+    coqrun.build('C18/Driver.v', timeout=600)
     coqrun.build('C18/Examples.v', timeout=600)      # non-vacuity examples (and C18/Uart.v) must keep checking
 
+    batch = []
+
     def run_blocks(tag, terms, exp, descr, shard, count=None, header=None):
-        # outputs are compared through two 64-bit polynomial hashes computed inside Coq (cheap: no division);
-        # for differing cases the model output is re-evaluated and shown in full
+        # collected and evaluated together at the end (one round of parallel coqc instead of one per section)
         nonlocal n_eval
         n_eval += len(terms) if count is None else count
-        header = header or HEADER
-        bad = coqrun.compare_blocks(header, ['hh (%s)' % t for t in terms], [_hh(e) for e in exp], tag=tag, shard=shard)
-        for bi, _ in bad[:4]:
+        batch.append((tag, list(terms), list(exp), [descr(k) for k in range(len(terms))]))
+
+    def flush_blocks():
+        # outputs are compared through two 64-bit polynomial hashes computed inside Coq (cheap: no division);
+        # for differing cases the model output is re-evaluated and shown in full
+        allt = [(tag, t, e, d) for (tag, ts, es, ds) in batch for (t, e, d) in zip(ts, es, ds)]
+        n = len(allt)
+        jobs = 16
+        order = [k for r in range(jobs) for k in range(r, n, jobs)]          # heavy neighbours end up in different shards
+        allt = [allt[k] for k in order]
+        shard = max(1, -(-n // jobs))
+        bad = coqrun.compare_blocks(HEADER_ALL, ['hh (%s)' % t for (_, t, _, _) in allt], [_hh(e) for (_, _, e, _) in allt],
+                                    tag='c18', shard=shard)
+        per_tag = {}
+        for bi, _ in bad:
+            tag, term, e, d = allt[bi]
+            per_tag[tag] = per_tag.get(tag, 0) + 1
+            if per_tag[tag] > 4:
+                continue
             mv = None
-            if len(exp[bi]) < 20000:
+            if len(e) < 20000:
                 try:
-                    mv = coqrun.eval_terms(header, [terms[bi]], tag=tag + 'x')[0]
-                except coqrun.CoqError as e:
-                    mv = ['model evaluation failed', str(e)[:300]]
-            k = next((i for i, (x, y) in enumerate(zip(mv or [], exp[bi])) if x != y), 0) if isinstance(mv, list) else 0
-            dis.append({'what': descr(bi)['what'], 'case': descr(bi), 'first_difference_at': k,
-                        'model': (mv or [])[max(0, k - 10):k + 40], 'impl': exp[bi][max(0, k - 10):k + 40]})
-        if len(bad) > 4:
-            dis.append({'what': 'further differing cases (%s)' % tag, 'count': len(bad) - 4})
+                    mv = coqrun.eval_terms(HEADER_ALL, [term], tag='c18x')[0]
+                except coqrun.CoqError as ex:
+                    mv = ['model evaluation failed', str(ex)[:300]]
+            k = next((i for i, (x, y) in enumerate(zip(mv or [], e)) if x != y), 0) if isinstance(mv, list) else 0
+            dis.append({'what': d['what'], 'case': d, 'first_difference_at': k,
+                        'model': (mv or [])[max(0, k - 10):k + 40], 'impl': e[max(0, k - 10):k + 40]})
+        for tag, c in sorted(per_tag.items()):
+            if c > 4:
+                dis.append({'what': 'further differing cases (%s)' % tag, 'count': c - 4})
 
     # ---- A. _set_wire_data: all 65 536 header byte pairs (payload [7; 9]) + short inputs
     terms, exp = [], []
@@ -1284,7 +1471,7 @@ def tie(ctx):
             if k == 'P':
                 evs.append(['P'])
             elif k == 'R':
-                evs.append(['R', rng.choice(fs + [rng.choice(FUNCTIONS)])])
+                evs.append(['R', rng.choice(fs + [rng.choice(FUNCTIONS)])] + ([0.003] if rng.random() < 0.15 else []))
             elif k == 'S':
                 evs.append(['S', pkt])
             elif k == 'T':
@@ -1317,6 +1504,35 @@ def tie(ctx):
     run_blocks('c18h', terms, exp, lambda bi: ccs[bi], 30, header=HEADER_C)
     dist['cpx_sessions'] = n_c
     dist['cpx_event_kinds'] = ekinds
+
+    # ---- T. TcpDriver end to end (its own connect: router thread + receive thread; send_packet; receive_packet(0, >0, <0); close)
+    def dev_term(e):
+        if e[0] == 'P':
+            return 'DPump'
+        if e[0] == 'S':
+            return 'DSend (crtp_header %d %d) %s' % (e[1], e[2], coqrun.zlist(e[3]))
+        if e[0] == 'R':
+            return 'DRecv %s' % coqrun.z(e[1])
+        return 'DClose'
+    terms, exp, dcs2 = [], [], []
+    for i in range(ctx.scale(60, 1000)):
+        dc = _driver_case(rng)
+        stream = b''.join(_frame_ref(a[0], a[1], a[2], a[3], 0, a[4]) for a in dc['items'])
+        chunks = _cut(stream, dc['cuts'])
+        early = rng.randrange(0, len(dc['items']) + 1) if i % 4 == 0 else 0
+        out, _, info = impl_driver_session(chunks, dc['takes'], dc['events'], early=early)
+        terms.append('drv_case %s %s [%s]' % (coqrun.zlist(dc['takes']), _sock_term(chunks),
+                                             '; '.join(['DPump'] * early + [dev_term(e) for e in dc['events']])))
+        dc['early'] = early
+        exp.append(out)
+        dcs2.append(dict(dc, what='TcpDriver session differs from d_run', kind='driver'))
+        if info['stuck'] or info['errors']:
+            dis.append(dict(dcs2[-1], what='TcpDriver session: thread stuck or link error %s' % info['errors'][:1]))
+            break
+        if _inside_header(dc['cuts'], _bounds(dc['items'])):
+            nontriv.add(_h(['drv', dc['items'], dc['cuts'], dc['events']]))
+    run_blocks('c18t', terms, exp, lambda bi: dcs2[bi], 30, header=HEADER_D)
+    dist['tcp_driver_sessions'] = len(dcs2)
 
     # ---- W. two or three threads sending on one transport (CPX.sendPacket and TcpDriver.send_packet), scheduled at every
     #         send call: the model must accept the observed order of frames and the stream must be exactly those frames
@@ -1395,9 +1611,24 @@ def tie(ctx):
         exp.append(out)
         ucs.append({'what': 'UARTTransport session differs from uart_run', 'ops': ops, 'port_bytes': list(data), 'locked': locked})
     run_blocks('c18u', terms, exp, lambda bi: ucs[bi], 40, header=HEADER_U)
+    terms, exp, kcs = [], [], []
+    for i in range(ctx.scale(200, 3000)):
+        pre = []
+        for _ in range(rng.randrange(0, 5)):
+            pre += rng.choice([[rng.randrange(255)], [255, rng.randrange(1, 256)], [255, 1], [255, 1, 0], [255, 255, 0], [0], [255, 255], [255, 0]])
+        if rng.random() < 0.8:
+            pre += [255, 0]
+        pre += [rng.randrange(256) for _ in range(rng.randrange(0, 4))]
+        t = impl_uart_connect(pre)
+        terms.append('match uart_connect %s with Some r => [zlen r; 1] | None => [-1] end' % coqrun.zlist(pre))
+        exp.append([-1] if t is None else [len(t._serial.buf) - t._serial.pos, 1 if t._serial.written == [bytes([255, 0])] else 0])
+        kcs.append({'what': 'UARTTransport.connect handshake differs from uart_connect', 'port_bytes': pre})
+    run_blocks('c18k', terms, exp, lambda bi: kcs[bi], 50, header=HEADER_U)
+    dist['uart_connect_cases'] = len(kcs)
     dist['uart_sessions'] = n_u
     dist['uart_item_kinds'] = ukinds
 
+    flush_blocks()
     return {
         'evaluations': n_eval,
         'distinct_nontrivial': len(nontriv),
@@ -1739,6 +1970,87 @@ def _check_writers(writers, piece, schedule):
     return None
 
 
+def _driver_case(rng):
+    nf = rng.choice([1, 2, 3, 4, 6])
+    items = []
+    for _ in range(nf):
+        fn = 3 if rng.random() < 0.75 else rng.choice(FUNCTIONS)
+        data = [rng.randrange(256) for _ in range(rng.choice([0, 1, 1, 2, 5, 31, 32]))]
+        items.append([rng.choice(TARGETS), rng.choice(TARGETS), fn, rng.randrange(2), data])
+    L = sum(len(a[4]) + 4 for a in items)
+    events = []
+    closing = rng.random() < 0.3
+    for _ in range(rng.randrange(2, 2 * nf + 7)):
+        k = rng.choice(['P', 'P', 'P', 'R', 'R', 'S'] + (['C'] if closing else []))
+        if k == 'P':
+            events.append(['P'])
+        elif k == 'R':
+            events.append(['R', rng.choice([0, 0, 1, -1])])
+        elif k == 'S':
+            events.append(['S', rng.randrange(16), rng.randrange(4), [rng.randrange(256) for _ in range(rng.choice([0, 1, 2, 15, 30]))]])
+        else:
+            events.append(['C'])
+    return {'items': items, 'cuts': list(_rand_cuts(rng, L, _bounds(items))), 'takes': [rng.choice([1, 2, 3, 50]) for _ in range(rng.randrange(0, 3))],
+            'events': events}
+
+
+def _check_driver(items, cuts, takes, events, early=0):
+    """TcpDriver as a whole, both directions: connect announces the bridge, CRTP-function frames come out of
+    receive_packet as CRTP packets in order (any wait argument), send_packet writes whole frames, close stops both threads"""
+    stream = b''.join(_frame_ref(a[0], a[1], a[2], a[3], 0, a[4]) for a in items)
+    out, obs, info = impl_driver_session(_cut(stream, cuts), takes, events, early=early)
+    want = [[31, 0, 6, 4, 0, 25, 1, 0x21, 0x01]]
+    inq, arrivals, closed = [], iter(items), False
+    for e in [['P']] * early + list(events):
+        if e[0] == 'P':
+            if not closed:
+                a = next(arrivals, None)
+                if a is not None and a[2] == 3 and a[4]:
+                    h = a[4][0]
+                    inq.append([1, h | 12, (h & 0xF0) >> 4, h & 3, len(a[4]) - 1] + list(a[4][1:]))
+        elif e[0] == 'S':
+            if closed:
+                want.append([31, 1, 5])
+            else:
+                fr = _frame_ref(3, 1, 3, 0, 0, [((e[1] & 15) << 4) | 12 | (e[2] & 3)] + list(e[3]))
+                want.append([31, 0, len(fr)] + list(fr))
+        elif e[0] == 'R':
+            want.append([32] + (inq.pop(0) if inq else [0]))
+        else:
+            want.append([33])
+            closed = True
+    if info['stuck']:
+        return {'observed': 'router / receive thread did not settle after an iteration', 'expected': 'packet handed to in_queue'}
+    if obs != want:
+        k = next((i for i, (x, y) in enumerate(zip(obs, want)) if x != y), min(len(obs), len(want)))
+        return {'observed': obs[k:k + 2], 'expected': want[k:k + 2], 'detail': 'observation no. %d' % k}
+    if info['errors']:
+        return {'observed': [m_[:200] for m_ in info['errors'][:1]], 'expected': 'no link error'}
+    if closed and (info['alive'] != [False, False] or not info['cpx_none']):
+        return {'observed': {'router/receive thread alive after close': info['alive'], 'cpx_none': info['cpx_none']}}
+    if info['addr'] != ('aideck.local', 5000):
+        return {'observed': info['addr'], 'expected': ['aideck.local', 5000]}
+    return None
+
+
+def _check_driver_misc():
+    import cflib.crtp.tcpdriver as td
+    from cflib.crtp.exceptions import WrongUriType
+    drv = td.TcpDriver()
+    for uri in ('radio://0/80/2M', 'udp://host:1', 'serial://tty', 'usb://0'):
+        try:
+            with _quiet():
+                drv.connect(uri, None, None)
+            return {'observed': 'connect(%r) did not raise' % uri, 'expected': 'WrongUriType'}
+        except WrongUriType:
+            pass
+        except Exception as e:  # noqa
+            return {'observed': 'connect(%r) raised %r' % (uri, e), 'expected': 'WrongUriType'}
+    if drv.scan_interface(None) != [] or drv.get_name() != 'cpx' or drv.needs_resending is not False:
+        return {'observed': [drv.scan_interface(None), drv.get_name(), drv.needs_resending], 'expected': [[], 'cpx', False]}
+    return None
+
+
 def _backlog_case(rng, n, simple=False):
     """one router: n packets of function f arrive and stay unread (or are read slowly) while packets of g (read at once)
     and h (receiver registers late) arrive in between"""
@@ -1814,6 +2126,9 @@ def _check_backlog(pkts, cuts, events):
 
 
 _CHECKS = {
+    'tcp_driver_session_violated': lambda c: _check_driver(c['items'], c['cuts'], c['takes'], c['events']),
+    'tcp_driver_misc': lambda c: _check_driver_misc(),
+    'crtp_lost_at_connect': lambda c: _check_driver(c['items'], c['cuts'], c['takes'], c['events'], early=c['early']),
     'router_blocks_on_backlog': lambda c: _check_backlog(c['packets'], c['cuts'], c['events']),
     'concurrent_writers_tear_frames': lambda c: _check_writers(c['writers'], c['piece'], c['schedule']),
     'short_send_loses_bytes': lambda c: _check_short_send(c['packets'], c['takes'], c['cuts']),
@@ -1872,7 +2187,7 @@ def oracle(ctx, deep=False):
     def chk(cls, case):
         nonlocal n
         n += 1
-        if cls in seen and (not deep or cls in ('cpx_facade_violated', 'concurrent_writers_tear_frames', 'router_blocks_on_backlog')):     # (a failing facade session costs join timeouts)
+        if cls in seen and (not deep or cls in ('cpx_facade_violated', 'concurrent_writers_tear_frames', 'router_blocks_on_backlog', 'tcp_driver_session_violated', 'crtp_lost_at_connect')):     # (a failing facade session costs join timeouts)
             return
         f = _run_check(cls, case)
         if f is not None:
@@ -2006,6 +2321,17 @@ def oracle(ctx, deep=False):
                                     'trans': [3, 1, rng.choice([f for f in FUNCTIONS if f not in fs]), 0, [rng.randrange(256)]]})
     for n_big in (99, 150, 98):
         chk('uart_oversize_wedges_link', {'big': n_big, 'then': [5, 2, [1, 2, 3]]})
+    # 5e. TcpDriver as a whole (own connect(), both threads running)
+    chk('tcp_driver_misc', {})
+    chk('tcp_driver_session_violated', {'items': [[1, 3, 3, 0, [0x5E, 1, 2]]], 'cuts': [], 'takes': [],
+                                        'events': [['P'], ['R', 0], ['S', 5, 2, [7]], ['C']]})
+    for _ in range(ctx.scale(40, 700)):
+        chk('tcp_driver_session_violated', _driver_case(rng))
+    # the router thread is started by CPX() inside connect(): it may read packets before the receive thread exists
+    chk('crtp_lost_at_connect', {'items': [[1, 3, 3, 0, [0x5E, 1, 2]]], 'cuts': [], 'takes': [], 'early': 1, 'events': [['R', 0]]})
+    for _ in range(ctx.scale(12, 200)):
+        dc = _driver_case(rng)
+        chk('crtp_lost_at_connect', dict(dc, early=rng.randrange(1, len(dc['items']) + 1)))
     # 5d. long unread backlog of one function on one router thread (smallest first)
     for n_b in (0, 10, 49, 50, 51, 52, 64, 100, 128, 200):
         chk('router_blocks_on_backlog', _backlog_case(rng, n_b, simple=True))
